@@ -366,7 +366,7 @@ var (
 )
 
 func c17Embedded(r *rand.Rand, idx int, format int) Case {
-	dir := filepath.Join(os.TempDir(), "ytcheck-c17")
+	dir := procTmp("c17")
 	_ = os.MkdirAll(dir, 0o755)
 	file := filepath.Join(dir, fmt.Sprintf("m%d.yaml", idx))
 	defer os.Remove(file)
@@ -511,7 +511,7 @@ func c17Embedded(r *rand.Rand, idx int, format int) Case {
 // NewBuilder().Create: a fresh manifest of either kind, an embedded properties document edited and
 // saved into it, reopened
 func c17Create(r *rand.Rand, idx int) Case {
-	dir := filepath.Join(os.TempDir(), "ytcheck-c17")
+	dir := procTmp("c17")
 	_ = os.MkdirAll(dir, 0o755)
 	file := filepath.Join(dir, fmt.Sprintf("created%d.yaml", idx))
 	_ = os.Remove(file)
@@ -588,7 +588,7 @@ func c17NoPanic(text string) Case {
 	if pn := guard(func() { _, err = k8s.ManifestFromBytes([]byte(text)) }); pn != "" {
 		fail = append(fail, "panic in ManifestFromBytes: "+pn)
 	}
-	dir := filepath.Join(os.TempDir(), "ytcheck-c17")
+	dir := procTmp("c17")
 	_ = os.MkdirAll(dir, 0o755)
 	file := filepath.Join(dir, fmt.Sprintf("hostile-%x.yaml", len(text)*131+int(crc(text))))
 	defer os.Remove(file)
